@@ -406,6 +406,15 @@ class Verifier:
             elif isinstance(s, ast.FunctionDef):
                 if s.name in self.c.inline:
                     mc[s.name] = MFn('inline', s.name, node=s, frame=None)
+            elif isinstance(s, ast.ClassDef):
+                # a class of the module under verification: an opaque class of that name (isinstance on object
+                # families is an uninterpreted predicate per class name unless a family axiom says more)
+                mc.setdefault(s.name, MCls(s.name))
+            elif isinstance(s, ast.ImportFrom):
+                for a in s.names:
+                    nm = a.asname or a.name
+                    if nm[:1].isupper() and not nm.isupper():
+                        mc.setdefault(nm, MCls(nm))
         self.module_consts = mc
         return mc
 
